@@ -9,4 +9,5 @@ S_k_k    == <<<<"wake">>, <<"wake">>>>
 S_k_sw   == <<<<"wake">>, <<"stop", "wakeup">>>>
 PrintSched == (RecordHist /\ Done) =>
    PrintT(<<"SCHED", ToJson([scripts |-> Scripts, ndisp |-> 0, mode |-> Mode, need |-> Need, sched |-> sched, hist |-> hist, blocked |-> IF everBlocked THEN 1 ELSE 0])>>)
+ASSUME PrintT(<<"CFG", ToJson([scripts |-> Scripts, ndisp |-> 0, mode |-> Mode, need |-> Need])>>)
 =============================================================================
